@@ -6005,8 +6005,17 @@ int32 psX509AuthenticateCert(psPool_t *pool, psX509Cert_t *subjectCert,
                 Valid CA to load: i2 or root
                 Invalid CA to load: l or i1
              */
+            /* The signature bytes are public and can be copied into any
+               certificate: also require the digest of the to-be-signed
+               certificate and the subject to be identical, so that sc really
+               is a copy of the trusted certificate ic. */
             if (sc->signatureLen == ic->signatureLen
-                && memcmpct(sc->signature, ic->signature, sc->signatureLen) == 0)
+                && memcmpct(sc->signature, ic->signature, sc->signatureLen) == 0
+                && sc->sigHashLen > 0
+                && sc->sigHashLen == ic->sigHashLen
+                && memcmpct(sc->sigHash, ic->sigHash, sc->sigHashLen) == 0
+                && memcmpct(sc->subject.hash, ic->subject.hash,
+                    SHA1_HASH_SIZE) == 0)
             {
                 /* Skip some of the signature and issuer checks */
                 goto L_INTERMEDIATE_ROOT;
